@@ -956,6 +956,19 @@ def prog_multi(seed: int, n_ops: int = 8, *, three: float = 0.3, prefs: float = 
             pred = g.pred(g.cols[t] | g.cols[u], 1) if rng.random() < 0.4 and (g.cols[t] | g.cols[u]) else None
             r = g.join(t, u, pred, bt=rng.random() < 0.7, tr=rng.random() < 0.6)
         observed.append(r)
+    if rng.random() < 0.1:
+        # a join inside ONE engine whose predicate uses a function only the other engine family
+        # supports: must be refused (EngineError), never built (C14: expressions are supported by
+        # the engine of the node holding them)
+        t = g.pick(pred=lambda x: bool(g.cols[x]))
+        if t is not None:
+            partners = [u for u in g.cols if g.eng[u] == g.eng[t] and not (g.cols[u] & g.cols[t] & NONKEY)
+                        and not (g.leaves_of.get(u, frozenset()) & g.leaves_of.get(t, frozenset()))]
+            if partners:
+                otherk = "sql" if g.kind[g.eng[t]] == "iter" else "iter"
+                e = ["fn", "o:special", otherk, ["ref", rng.choice(sorted(g.cols[t]))]]
+                g.emit(["join", g.fresh(), t, rng.choice(partners), ["pfn", "lt", "*", e, ["lit", 1]],
+                        rng.choice(["T", "F"]), rng.choice(["T", "F"])])
     for r in observed:
         p = "p" + r[1:]
         g.emit(["process", p, r])
@@ -1156,9 +1169,16 @@ def prog_illformed(seed: int, n_ops: int = 5) -> G:
             other = "sql" if g.kind[g.eng[t]] == "iter" else "iter"
             e = ["fn", "o:special", other, ["ref", rng.choice(sorted(cols))]]
             opts = g.opts(rng.choice(["-", g.eng[t]]), rng.random() < 0.5, rng.random() < 0.5, rng.random() < 0.5)
-            sub = rng.choice(["calc", "sel", "sort"])
+            sub = rng.choice(["calc", "sel", "sort", "join", "join"])
             tagc = [x for x in NEW_TAGS if x not in cols]
-            if sub == "calc" and tagc:
+            # a join (inside ONE engine) whose predicate that engine does not support
+            partners = [u for u in pool if g.eng[u] == g.eng[t] and not (g.cols[u] & cols & NONKEY)]
+            if sub == "join" and partners:
+                u = rng.choice(partners)
+                cmd = ["join", r, t, u, ["pfn", "lt", "*", e, ["lit", 1]], rng.choice(["T", "F"]), rng.choice(["T", "F"])]
+            elif sub == "join":
+                cmd = ["apply", r, t, ["sel", ["pfn", "lt", "*", e, ["lit", 1]]], opts]
+            elif sub == "calc" and tagc:
                 cmd = ["apply", r, t, ["calc", tagc[0], e], opts]
             elif sub == "sel":
                 cmd = ["apply", r, t, ["sel", ["pfn", "lt", "*", e, ["lit", 1]]], opts]
